@@ -516,6 +516,101 @@ def rule_s(rep, src):
             rep.violation("S", key, "the arms of %s compute different operators: %s" % (f.name, u), f.where())
 
 
+def rule_d(rep, src):
+    """Domain guard of the two `super_image`s that compute a range from the set: Pointwise and PartitionnedMonotonic."""
+    from .core import walk_guards, path_of, find
+    from .util_terms import desugar_early_returns
+
+    rep.rule(
+        "D",
+        "`impl Function for Pointwise / PartitionnedMonotonic`::super_image answer Ok(range) only for a set inside the function's domain: the set is converted with "
+        "`set.into_data_type(&self.domain())?` and then either (a) the Ok result is conditioned on `converted_set.is_subset_of(&self.domain())` (inline, or through the private "
+        "`checked_image(set, image)` whose Ok is so conditioned), or (b) the conversion itself is the guard, which it is only while the injections refuse an image outside their "
+        "co-domain (C12/J2 d-f: super_image -> intervals_image -> checked_image, both ends tested, identity included).  Neither (a) nor (b) is a violation; one of the two is enough",
+        floor=2,
+        necessary="a partitioned function clips the set to its pieces: outside the domain (ln on [-1, 1]) the value function answers an error, i.e. NULL behind the Optional wrapper, "
+        "while the clipped image is returned as if it were the image of the whole set - not optional; only the Err of super_image makes the wrapper fall back on option(co_domain)",
+    )
+    FN = "data_type/function.rs"
+    indirect = None
+    for ty in ("Pointwise", "PartitionnedMonotonic"):
+        fs = [f for f in src.find_fns(name="super_image", file=FN) if (f.self_ty or "").startswith(ty) and (f.trait or "").startswith("Function")]
+        key = "%s::super_image" % ty
+        if len(fs) != 1:
+            rep.undecidable("D", key, "expected one `impl Function for %s`::super_image, found %d" % (ty, len(fs)), "src/" + FN)
+            continue
+        f = fs[0]
+        setp = [p["pat"]["name"] for p in f.params if not p.get("self")][0]
+        conv = None
+        for st in f.body["stmts"]:
+            if st["k"] == "let" and st["pat"]["k"] == "ident" and st.get("init") is not None:
+                t = show(st["init"], 0).replace(" ", "")
+                if t in ("&%s.into_data_type(&self.domain())?" % setp, "%s.into_data_type(&self.domain())?" % setp):
+                    conv = st["pat"]["name"]
+        body = desugar_early_returns(f.body)
+        oks = [(x, g) for x, g in walk_guards(body, into_closures=False) if x["k"] == "call" and path_of(x["f"]) == "Ok"]
+        direct = False
+        how = None
+
+        def guarded(guards, var, recv="self"):
+            for g in guards:
+                if g[0] != "if":
+                    continue
+                c, pol = g[1], g[2]
+                while c["k"] == "unary" and c["op"] == "!":
+                    c, pol = c["e"], not pol
+                if pol and show(c, 0).replace(" ", "") == "%s.is_subset_of(&%s.domain())" % (var, recv):
+                    return True
+            return False
+
+        if conv is not None:
+            if oks and all(guarded(g, conv) for _, g in oks):
+                direct, how = True, "inline test"
+            else:
+                tail = body["stmts"][-1]["e"] if body["stmts"] and body["stmts"][-1]["k"] == "expr" else None
+                if tail is not None and tail["k"] == "mcall" and path_of(tail["recv"]) == "self" and tail["args"] and path_of(tail["args"][0]) == conv and not oks:
+                    hs = [h for h in src.find_fns(name=tail["m"], file=FN) if (h.self_ty or "").startswith(ty) and not h.trait]
+                    if len(hs) == 1:
+                        hp = [p["pat"]["name"] for p in hs[0].params if not p.get("self")]
+                        hoks = [(x, g) for x, g in walk_guards(desugar_early_returns(hs[0].body), into_closures=False) if x["k"] == "call" and path_of(x["f"]) == "Ok"]
+                        if hp and hoks and all(guarded(g, hp[0]) for _, g in hoks):
+                            direct, how = True, "through self.%s" % tail["m"]
+        rep.instance("D", key, {"impl": ty, "converted_set": conv, "direct_guard": how})
+        if conv is None:
+            rep.violation("D", key, "%s::super_image does not convert its argument with `%s.into_data_type(&self.domain())?`: a set of another variant (or outside the domain) is not refused" % (ty, setp), f.where())
+            continue
+        if direct:
+            continue
+        if indirect is None:
+            from . import c12
+            from .core import Report
+
+            scratch = Report("C12", "quick")
+            try:
+                c12.j2(scratch, src, c12.impl_pairs(src))
+                from .core import load_known, msg_sig
+
+                # the recorded C12/J2 findings (X -> Text answers Text::full() unchecked) are not counted: the full Text type lies outside a *restricted* text
+                # domain only, and the partitioned / pointwise functions on Text are declared on the full type (rule M reads their domains)
+                listed = {(k["rule"], k["key"]): k for k in load_known()["findings"] if k["property"] == "C12"}
+                indirect = [
+                    "%s: %s" % (v["key"], v["msg"][:160])
+                    for v in scratch.violations
+                    if (v["key"].startswith("Base::checked_image") or v["key"].startswith("Base::intervals_image") or v["key"].endswith("::super_image"))
+                    and not (("J2", v["key"]) in listed and listed[("J2", v["key"])].get("msg_sig") in (None, msg_sig(v["msg"])))
+                ]
+            except Exception as e:
+                indirect = ["the injection guards cannot be read (%s)" % e]
+        if indirect:
+            rep.violation(
+                "D",
+                key,
+                "%s::super_image no longer tests `%s.is_subset_of(&self.domain())` and the conversion it relies on instead does not refuse images outside the co-domain (%d injection guard(s) missing, e.g. %s)"
+                % (ty, conv, len(indirect), indirect[0]),
+                f.where(),
+            )
+
+
 def run(rep):
     from . import util_c06 as u
 
@@ -534,6 +629,7 @@ def run(rep):
     u.rule_o(rep, src)
     rule_s(rep, src)
     o3(rep, src)
+    rule_d(rep, src)
     from .util_enum import n1
 
     n1(rep, src)
